@@ -5,7 +5,10 @@ import Driver.Util
 Line: `chk <hex source (ignored here)> <kind> <scrutinee type id> T <n> <def>… P <m> <spat>…`
 * kind: `match` | `let` | `iflet`
 * def:  `E <cls> <k> (<variant name> <arity> <type id>…)…` | `S <k> (<field name> <type id>)…` | `P`
-* spat: `W` | `I` | `T <k> p…` | `O <k> (<field name> p)…` | `V <tag> <k> p…` | `R <k> p…`
+* after the patterns: `G <k> <generic class>… Y <n> <closed type of each id>…` with generic class
+  `E <k> (<name> <arity> gty…)…` | `S <k> (<field> gty)…` and gty `i` | `t` | `c <cls> 0` | `c <cls> 1 gty`
+  (`mono`: the type table is the instantiation of these classes, checked by `monoCheck`)
+* spat: `W` | `I <name id>` | `T <k> p…` | `O <k> (<field name> p)…` | `V <tag> <k> p…` | `R <k> p…`
 Answer: `nonexh=<counterexample or -> useless=<0|1> err=<0|1> panic=<0|1> typed=<0|1> inh=<0|1>`
 (`inh`: a rank certificate for `Inhabited'` of the type table was found and checked by `rankCheck`); variant names are
 printed as `#<id>` (the Python side substitutes the names). `fuel` is printed instead if the fuel ran out. -/
@@ -47,10 +50,40 @@ def parseDef : Toks → Option (Def × Toks)
     pure (.struct fs, ts)
   | _ => none
 
+partial def parseGTy : Toks → Option (GTy × Toks)
+  | "i" :: ts => some (.int, ts)
+  | "t" :: ts => some (.tparam, ts)
+  | "c" :: c :: "0" :: ts => do pure (.cls (← c.toNat?) none, ts)
+  | "c" :: c :: "1" :: ts => do
+    let (a, ts) ← parseGTy ts
+    pure (.cls (← c.toNat?) (some a), ts)
+  | _ => none
+
+def parseGVariant : Toks → Option ((Nat × List GTy) × Toks)
+  | name :: ar :: ts => do
+    let (tys, ts) ← parseN parseGTy (← ar.toNat?) ts
+    pure ((← name.toNat?, tys), ts)
+  | _ => none
+
+def parseGField : Toks → Option ((Nat × GTy) × Toks)
+  | name :: ts => do
+    let (t, ts) ← parseGTy ts
+    pure ((← name.toNat?, t), ts)
+  | _ => none
+
+def parseGDef : Toks → Option (GDef × Toks)
+  | "E" :: k :: ts => do
+    let (vs, ts) ← parseN parseGVariant (← k.toNat?) ts
+    pure (.enum vs, ts)
+  | "S" :: k :: ts => do
+    let (fs, ts) ← parseN parseGField (← k.toNat?) ts
+    pure (.struct fs, ts)
+  | _ => none
+
 mutual
 partial def parsePat : Toks → Option (SPat × Toks)
   | "W" :: ts => some (.wild, ts)
-  | "I" :: ts => some (.id, ts)
+  | "I" :: name :: ts => do pure (.id (← name.toNat?), ts)
   | "T" :: k :: ts => do
     let (ps, ts) ← parseN parsePat (← k.toNat?) ts
     pure (.tuple ps, ts)
@@ -111,7 +144,7 @@ def computeRanks (defs : List Def) : List Nat :=
 
 def b (x : Bool) : String := if x then "1" else "0"
 
-def answer (kind : String) (ty : Nat) (defs : List Def) (pats : List SPat) : String :=
+def answer (kind : String) (ty : Nat) (defs : List Def) (pats : List SPat) (mono : Bool) : String :=
   let sig : Sig := fun t => defs.getD t .prim
   let cx := cxOf defs
   -- if-let: `wildcard_on_bad_pattern = false` (main_checker.rs:939); match / let: `true` (981, 1539)
@@ -126,12 +159,12 @@ def answer (kind : String) (ty : Nat) (defs : List Def) (pats : List SPat) : Str
     -- main_checker.rs:940-946: useless (irrefutable) iff a wildcard is not useful after the pattern
     match isAdditionalPatternUsefulF cx fuel aps .wild with
     | none => "fuel"
-    | some u => s!"nonexh=- useless={b (!u)} err={b err} panic={b pan} typed={b typed} inh={b inh}"
+    | some u => s!"nonexh=- useless={b (!u)} err={b err} panic={b pan} typed={b typed} inh={b inh} mono={b mono}"
   else
     match incompleteCounterexampleF cx fuel aps with
     | none => "fuel"
-    | some none => s!"nonexh=- useless=0 err={b err} panic={b pan} typed={b typed} inh={b inh}"
-    | some (some d) => s!"nonexh={(render d).replace " " "~"} useless=0 err={b err} panic={b pan} typed={b typed} inh={b inh}"
+    | some none => s!"nonexh=- useless=0 err={b err} panic={b pan} typed={b typed} inh={b inh} mono={b mono}"
+    | some (some d) => s!"nonexh={(render d).replace " " "~"} useless=0 err={b err} panic={b pan} typed={b typed} inh={b inh} mono={b mono}"
 
 def step (_ : Unit) (line : String) : Unit × String :=
   match words line with
@@ -140,8 +173,18 @@ def step (_ : Unit) (line : String) : Unit × String :=
       let (defs, rest) ← parseN parseDef (← n.toNat?) rest
       match rest with
       | "P" :: m :: rest =>
-        let (pats, _) ← parseN parsePat (← m.toNat?) rest
-        pure (answer kind (← ty.toNat?) defs pats)
+        let (pats, rest) ← parseN parsePat (← m.toNat?) rest
+        let mono := match rest with
+          | "G" :: k :: rest =>
+            (do
+              let (classes, rest) ← parseN parseGDef (← k.toNat?) rest
+              match rest with
+              | "Y" :: j :: rest =>
+                let (tyOf, _) ← parseN parseGTy (← j.toNat?) rest
+                pure (monoCheck classes tyOf defs)
+              | _ => none).getD false
+          | _ => false
+        pure (answer kind (← ty.toNat?) defs pats mono)
       | _ => none
     ((), r.getD "bad-line")
   | _ => ((), "bad-op")
